@@ -301,6 +301,9 @@ def generated(lang, thorough):
     ind = len(lines[f1["start"][0] - 1]) - len(lines[f1["start"][0] - 1].lstrip())
     lines.insert(f1["start"][0] - 1, " " * ind + f"{lead} nocl (own line: does not apply to the next function)")
     out.append({"src": "text", "lang": lang, "id": "with-nocl-markers", "text": "\n".join(lines)})
+    # files that start with a byte order mark (Windows editors): one character that is on line 1 but is not code
+    for sk in ("two", "func-global-func"):
+        out.append({"src": "text", "lang": lang, "id": f"with-bom:{sk}", "text": "\ufeff" + canon.render(programs.skeletons(lang)[sk])[0]})
     from mc.gen import wild
 
     for name, _t in wild.snippets(lang):
